@@ -14,9 +14,11 @@ chunks, `stream` = chunk function + streaming `__getitem__`.
 with the round trip (validated on real images by the harness on every case) the `np` and `stream`
 pixels are *equal*.
 
-Full statement (false of the code, see `cfg_max_override_counterexample`, finding F-C18a):
-`frameworks_agree_scale1` / `frameworks_agree_any_scale` without the hypothesis `hcfg` that
-`data_config.preprocessing.max_height/max_width`, when set, equal the `max_hw` the datasets get.
+`sampleOf` is the tree as it is since `fix:` 3fdd300 (torch datasets honour the config's
+`max_height/max_width`); `frameworks_agree_scale1` / `frameworks_agree_any_scale` are the full
+statements for it.  The tree before the fix is `sampleOfAsWas`; `cfg_max_override_counterexample`
+(F-C18a) is kept about it as the regression record.  The one hypothesis that still names a defect is
+`hsingle` (F-C18b): it is vacuous on a tree with `singleOne = true`.
 -/
 
 set_option linter.unusedSectionVars false
@@ -35,9 +37,16 @@ def PixelsAgree (m n s : Sample R) : Prop :=
 def CoordsEq (a b : Sample R) : Prop :=
   a.instances = b.instances ∧ a.centroids = b.centroids ∧ a.bbox = b.bbox
 
-/-- the configuration's own `max_height/max_width`, when set, are the `max_hw` the datasets get -/
-def CfgMaxConsistent (cfg : Cfg R) : Prop :=
-  chunkMaxH cfg = cfg.maxH ∧ chunkMaxW cfg = cfg.maxW
+/-- single-instance labels do not trip F-C18b: the repair is in, or no frame has more than one
+instance (so `get_max_instances = 1`) -/
+def SingleOk (cfg : Cfg R) : Prop :=
+  cfg.mt = .single → cfg.singleOne = true ∨ cfg.maxInstances = 1
+
+theorem dsMaxInst_single (cfg : Cfg R) (h : cfg.mt = .single) (hs : SingleOk cfg) : dsMaxInst cfg = 1 := by
+  rcases hs h with h1 | h1 <;> simp [dsMaxInst, h, h1]
+
+theorem dsMaxInst_other (cfg : Cfg R) (h : cfg.mt ≠ .single) : dsMaxInst cfg = cfg.maxInstances := by
+  simp [dsMaxInst, h]
 
 theorem shape_erase (N : Num R) (raw : Nat × Nat × Nat) (i : Img R) :
     shape N raw i.erase = shape N raw i := Pipelines.shape_erase N raw i
@@ -53,25 +62,24 @@ example : centroidOf (R := Rat) (some 0) (scaleInst (1/2) [none, some (4, 6), so
 /-! ## single-instance and bottom-up: any scale -/
 
 theorem plain_agree (N : Num R) (cfg : Cfg R) (fr : Frame R) (k : Nat)
-    (hmt : cfg.mt = .single ∨ cfg.mt = .bottomup) (hcfg : CfgMaxConsistent cfg)
-    (hsingle : cfg.mt = .single → cfg.maxInstances = 1) :
+    (hmt : cfg.mt = .single ∨ cfg.mt = .bottomup) (hsingle : SingleOk cfg) :
     PixelsAgree (sampleOf N .mem cfg fr k) (sampleOf N .np cfg fr k) (sampleOf N .stream cfg fr k) ∧
     CoordsEq (sampleOf N .np cfg fr k) (sampleOf N .mem cfg fr k) ∧
     CoordsEq (sampleOf N .stream cfg fr k) (sampleOf N .mem cfg fr k) ∧
     (sampleOf N .np cfg fr k).numInstances = (sampleOf N .mem cfg fr k).numInstances ∧
     (sampleOf N .stream cfg fr k).numInstances = (sampleOf N .mem cfg fr k).numInstances := by
-  obtain ⟨hH, hW⟩ := hcfg
   rcases hmt with h | h
-  · have h1 := hsingle h
-    simp [sampleOf, h, torchPlain, streamPlain, PixelsAgree, CoordsEq, Img.erase, Img.quants, hH, hW,
-      h1, processLf_num, q8If]
-  · simp [sampleOf, h, torchPlain, streamPlain, PixelsAgree, CoordsEq, Img.erase, Img.quants, hH, hW,
-      processLf_num, q8If]
+  · have h1 := dsMaxInst_single cfg h hsingle
+    simp [sampleOf, sampleOfH, h, torchPlain, streamPlain, PixelsAgree, CoordsEq, Img.erase, Img.quants,
+      dsMaxH, dsMaxW, h1, processLf_num, q8If]
+  · have h1 := dsMaxInst_other cfg (by rw [h]; decide)
+    simp [sampleOf, sampleOfH, h, torchPlain, streamPlain, PixelsAgree, CoordsEq, Img.erase, Img.quants,
+      dsMaxH, dsMaxW, h1, processLf_num, q8If]
 
 /-! ## centroid: any positive scale -/
 
 theorem centroid_agree (N : Num R) (cfg : Cfg R) (fr : Frame R) (k : Nat)
-    (hmt : cfg.mt = .centroid) (hcfg : CfgMaxConsistent cfg) (hs : 0 < cfg.scale) :
+    (hmt : cfg.mt = .centroid) (hs : 0 < cfg.scale) :
     PixelsAgree (sampleOf N .mem cfg fr k) (sampleOf N .np cfg fr k) (sampleOf N .stream cfg fr k) ∧
     CoordsEq (sampleOf N .np cfg fr k) (sampleOf N .mem cfg fr k) ∧
     (sampleOf N .stream cfg fr k).centroids = (sampleOf N .mem cfg fr k).centroids ∧
@@ -79,31 +87,30 @@ theorem centroid_agree (N : Num R) (cfg : Cfg R) (fr : Frame R) (k : Nat)
     (cfg.scale = 1 → (sampleOf N .stream cfg fr k).instances = (sampleOf N .mem cfg fr k).instances) ∧
     (sampleOf N .np cfg fr k).numInstances = (sampleOf N .mem cfg fr k).numInstances ∧
     (sampleOf N .stream cfg fr k).numInstances = (sampleOf N .mem cfg fr k).numInstances := by
-  obtain ⟨hH, hW⟩ := hcfg
   have key : applyResizerCen cfg.scale
-        ((List.map (scaleInst (effScale N fr cfg.maxH cfg.maxW)) (processLf cfg.maxInstances fr.insts).1).map
+        ((List.map (scaleInst (effScale N fr (chunkMaxH cfg) (chunkMaxW cfg))) (processLf cfg.maxInstances fr.insts).1).map
           (centroidOf cfg.anchor))
       = (applyResizerPts cfg.scale
-          (List.map (scaleInst (effScale N fr cfg.maxH cfg.maxW)) (processLf cfg.maxInstances fr.insts).1)).map
+          (List.map (scaleInst (effScale N fr (chunkMaxH cfg) (chunkMaxW cfg))) (processLf cfg.maxInstances fr.insts).1)).map
           (centroidOf cfg.anchor) := by
     unfold applyResizerCen applyResizerPts
     split
     · rfl
     · exact (map_centroidOf_scale cfg.scale hs cfg.anchor _).symm
   refine ⟨?_, ?_, ?_, ?_, ?_, ?_, ?_⟩
-  · simp [sampleOf, hmt, torchCentroid, streamCentroid, PixelsAgree, Img.erase, Img.quants, hH, hW, q8If]
-  · simp [sampleOf, hmt, torchCentroid, CoordsEq]
-  · simpa [sampleOf, hmt, torchCentroid, streamCentroid, hH, hW] using key
-  · simp [sampleOf, hmt, torchCentroid, streamCentroid]
+  · simp [sampleOf, sampleOfH, dsMaxH, dsMaxW, hmt, torchCentroid, streamCentroid, PixelsAgree, Img.erase, Img.quants, q8If]
+  · simp [sampleOf, sampleOfH, dsMaxH, dsMaxW, hmt, torchCentroid, CoordsEq]
+  · simpa [sampleOf, sampleOfH, dsMaxH, dsMaxW, hmt, torchCentroid, streamCentroid] using key
+  · simp [sampleOf, sampleOfH, dsMaxH, dsMaxW, hmt, torchCentroid, streamCentroid]
   · intro h1
-    simp [sampleOf, hmt, torchCentroid, streamCentroid, hH, hW, applyResizerPts, h1]
-  · simp [sampleOf, hmt, torchCentroid]
-  · simp [sampleOf, hmt, torchCentroid, streamCentroid, processLf_num]
+    simp [sampleOf, sampleOfH, dsMaxH, dsMaxW, hmt, torchCentroid, streamCentroid, applyResizerPts, h1]
+  · simp [sampleOf, sampleOfH, dsMaxH, dsMaxW, hmt, torchCentroid]
+  · simp [sampleOf, sampleOfH, dsMaxH, dsMaxW, hmt, torchCentroid, streamCentroid, processLf_num]
 
 /-! ## centred instance: scale 1 -/
 
 theorem centered_agree_scale1 (N : Num R) (cfg : Cfg R) (fr : Frame R) (k : Nat)
-    (hmt : cfg.mt = .centered) (hcfg : CfgMaxConsistent cfg) (hs : cfg.scale = 1)
+    (hmt : cfg.mt = .centered) (hs : cfg.scale = 1)
     (hN : ∀ n : Nat, N.trunc (N.cast n * 1) = n) (hk : k < (nonEmpty fr.insts).length) :
     PixelsAgree (sampleOf N .mem cfg fr k) (sampleOf N .np cfg fr k) (sampleOf N .stream cfg fr k) ∧
     CoordsEq (sampleOf N .np cfg fr k) (sampleOf N .mem cfg fr k) ∧
@@ -112,33 +119,31 @@ theorem centered_agree_scale1 (N : Num R) (cfg : Cfg R) (fr : Frame R) (k : Nat)
     (nonEmpty fr.insts = fr.insts →
       (sampleOf N .stream cfg fr k).numInstances = (sampleOf N .mem cfg fr k).numInstances) ∧
     (sampleOf N .np cfg fr k).img = (sampleOf N .stream cfg fr k).img := by
-  obtain ⟨hH, hW⟩ := hcfg
   have hget : (processLf cfg.maxInstances fr.insts).1[k]? = some ((nonEmpty fr.insts)[k]) := by
     rw [processLf_getElem? _ _ _ hk]; exact List.getElem?_eq_getElem hk
   have hget' : (nonEmpty fr.insts)[k]? = some ((nonEmpty fr.insts)[k]) := List.getElem?_eq_getElem hk
   have hN' : ∀ n : Nat, N.trunc (N.cast n) = n := fun n => by simpa using hN n
   refine ⟨?_, ?_, ?_, ?_, ?_, ?_⟩
-  · simp [sampleOf, hmt, torchCentered, streamCentered, recrop, generateCrops, PixelsAgree, Img.erase,
-      Img.quants, hH, hW, hs, hN', applyResizer, applyResizerPts, hget, hget', q8If]
-  · simp [sampleOf, hmt, torchCentered, recrop, generateCrops, CoordsEq]
-  · simp [sampleOf, hmt, torchCentered, streamCentered, recrop, generateCrops, CoordsEq, hH, hW, hs, hN',
+  · simp [sampleOf, sampleOfH, dsMaxH, dsMaxW, hmt, torchCentered, streamCentered, recrop, generateCrops, PixelsAgree, Img.erase,
+      Img.quants, hs, hN', applyResizer, applyResizerPts, hget, hget', q8If]
+  · simp [sampleOf, sampleOfH, dsMaxH, dsMaxW, hmt, torchCentered, recrop, generateCrops, CoordsEq]
+  · simp [sampleOf, sampleOfH, dsMaxH, dsMaxW, hmt, torchCentered, streamCentered, recrop, generateCrops, CoordsEq, hs, hN',
       applyResizer, applyResizerPts, hget, hget']
-  · simp [sampleOf, hmt, torchCentered, recrop]
+  · simp [sampleOf, sampleOfH, dsMaxH, dsMaxW, hmt, torchCentered, recrop]
   · intro hne
-    simp [sampleOf, hmt, torchCentered, streamCentered, recrop, processLf_num, hne]
-  · simp [sampleOf, hmt, torchCentered, streamCentered, recrop, generateCrops, hH, hW, hs, hN', applyResizer,
+    simp [sampleOf, sampleOfH, dsMaxH, dsMaxW, hmt, torchCentered, streamCentered, recrop, processLf_num, hne]
+  · simp [sampleOf, sampleOfH, dsMaxH, dsMaxW, hmt, torchCentered, streamCentered, recrop, generateCrops, hs, hN', applyResizer,
       applyResizerPts, hget, hget', q8If]
 
 /-! ## the two statements of the property -/
 
-/-- **All four model types at scale 1.**  Hypotheses: the config's own `max_height/max_width` do
-not contradict `max_hw` (`hcfg`, see F-C18a); single-instance labels have one instance per frame
-(`hsingle`); `k` addresses an existing non-empty instance (`hk`); `int(n * 1.0) = n` (`hN`).
-`num_instances` of the centred-instance streaming sample agrees when the frame has no empty
-instance. -/
-theorem frameworks_agree_scale1_partial (N : Num R) (cfg : Cfg R) (fr : Frame R) (k : Nat)
-    (hs : cfg.scale = 1) (hcfg : CfgMaxConsistent cfg)
-    (hsingle : cfg.mt = .single → cfg.maxInstances = 1)
+/-- **All four model types at scale 1** — the full statement, for the tree as it is.  No hypothesis
+relates `max_hw` to the config's `max_height/max_width` any more (3fdd300).  `hsingle`: F-C18b
+(vacuous once `singleOne = true`); `hk`: `k` addresses an existing non-empty instance;
+`hN`: `int(n * 1.0) = n`.  Beyond the statement (metadata): `num_instances` of the centred-instance
+streaming sample agrees when the frame has no empty instance. -/
+theorem frameworks_agree_scale1 (N : Num R) (cfg : Cfg R) (fr : Frame R) (k : Nat)
+    (hs : cfg.scale = 1) (hsingle : SingleOk cfg)
     (hN : ∀ n : Nat, N.trunc (N.cast n * 1) = n)
     (hk : cfg.mt = .centered → k < (nonEmpty fr.insts).length) :
     PixelsAgree (sampleOf N .mem cfg fr k) (sampleOf N .np cfg fr k) (sampleOf N .stream cfg fr k) ∧
@@ -150,24 +155,23 @@ theorem frameworks_agree_scale1_partial (N : Num R) (cfg : Cfg R) (fr : Frame R)
   have hpos : (0 : R) < cfg.scale := by rw [hs]; exact one_pos
   cases hmt : cfg.mt with
   | single =>
-    obtain ⟨a, b, c, d, e⟩ := plain_agree N cfg fr k (Or.inl hmt) hcfg hsingle
+    obtain ⟨a, b, c, d, e⟩ := plain_agree N cfg fr k (Or.inl hmt) hsingle
     exact ⟨a, b, c, d, fun _ => e⟩
   | bottomup =>
-    obtain ⟨a, b, c, d, e⟩ := plain_agree N cfg fr k (Or.inr hmt) hcfg hsingle
+    obtain ⟨a, b, c, d, e⟩ := plain_agree N cfg fr k (Or.inr hmt) hsingle
     exact ⟨a, b, c, d, fun _ => e⟩
   | centroid =>
-    obtain ⟨a, b, c, d, e, f, g⟩ := centroid_agree N cfg fr k hmt hcfg hpos
+    obtain ⟨a, b, c, d, e, f, g⟩ := centroid_agree N cfg fr k hmt hpos
     exact ⟨a, b, ⟨e hs, c, d⟩, f, fun _ => g⟩
   | centered =>
-    obtain ⟨a, b, c, d, e, _⟩ := centered_agree_scale1 N cfg fr k hmt hcfg hs hN (hk hmt)
+    obtain ⟨a, b, c, d, e, _⟩ := centered_agree_scale1 N cfg fr k hmt hs hN (hk hmt)
     exact ⟨a, b, c, d, fun h => e (h rfl)⟩
 
-/-- **Single-instance, centroid and bottom-up at any positive scale**: pixel terms agree up to one
-round trip; the points the targets are drawn from (`instances`, resp. `centroids` for the centroid
-model) are the same; `num_instances` is the same. -/
-theorem frameworks_agree_any_scale_partial (N : Num R) (cfg : Cfg R) (fr : Frame R) (k : Nat)
-    (hmt : cfg.mt ≠ .centered) (hs : 0 < cfg.scale) (hcfg : CfgMaxConsistent cfg)
-    (hsingle : cfg.mt = .single → cfg.maxInstances = 1) :
+/-- **Single-instance, centroid and bottom-up at any positive scale** — the full statement: pixel
+terms agree up to one round trip; the points the targets are drawn from (`instances`, resp.
+`centroids` for the centroid model) are the same; `num_instances` is the same. -/
+theorem frameworks_agree_any_scale (N : Num R) (cfg : Cfg R) (fr : Frame R) (k : Nat)
+    (hmt : cfg.mt ≠ .centered) (hs : 0 < cfg.scale) (hsingle : SingleOk cfg) :
     PixelsAgree (sampleOf N .mem cfg fr k) (sampleOf N .np cfg fr k) (sampleOf N .stream cfg fr k) ∧
     CoordsEq (sampleOf N .np cfg fr k) (sampleOf N .mem cfg fr k) ∧
     (sampleOf N .stream cfg fr k).centroids = (sampleOf N .mem cfg fr k).centroids ∧
@@ -176,26 +180,25 @@ theorem frameworks_agree_any_scale_partial (N : Num R) (cfg : Cfg R) (fr : Frame
     (sampleOf N .stream cfg fr k).numInstances = (sampleOf N .mem cfg fr k).numInstances := by
   cases h : cfg.mt with
   | single =>
-    obtain ⟨a, b, c, d, e⟩ := plain_agree N cfg fr k (Or.inl h) hcfg hsingle
+    obtain ⟨a, b, c, d, e⟩ := plain_agree N cfg fr k (Or.inl h) hsingle
     exact ⟨a, b, c.2.1, fun _ => c.1, d, e⟩
   | bottomup =>
-    obtain ⟨a, b, c, d, e⟩ := plain_agree N cfg fr k (Or.inr h) hcfg hsingle
+    obtain ⟨a, b, c, d, e⟩ := plain_agree N cfg fr k (Or.inr h) hsingle
     exact ⟨a, b, c.2.1, fun _ => c.1, d, e⟩
   | centroid =>
-    obtain ⟨a, b, c, _, _, f, g⟩ := centroid_agree N cfg fr k h hcfg hs
+    obtain ⟨a, b, c, _, _, f, g⟩ := centroid_agree N cfg fr k h hs
     exact ⟨a, b, c, fun hne => absurd rfl hne, f, g⟩
   | centered => exact absurd h hmt
 
-/-- the hypotheses are satisfiable by a non-trivial configuration (bottom-up, scale 1/2, two videos'
-worth of size matching, one instance with a missing node) -/
+/-- the hypotheses are satisfiable by a non-trivial configuration: bottom-up, scale 1/2, the config
+overrides one component of `max_hw` (96×128 → 96×160), two instances per frame at most -/
 def cfg1 : Cfg Rat :=
-  { mt := .bottomup, isRgb := false, maxH := 96, maxW := 128, cfgMaxH := none, cfgMaxW := some 128,
+  { mt := .bottomup, isRgb := true, maxH := 96, maxW := 128, cfgMaxH := none, cfgMaxW := some 160,
     scale := 1/2, maxStride := 16, cropH := 32, cropW := 32, anchor := some 0, maxInstances := 2,
-    aliasing := true }
+    aliasing := false }
 
-example : cfg1.mt ≠ .centered ∧ 0 < cfg1.scale ∧ CfgMaxConsistent cfg1 ∧
-    (cfg1.mt = .single → cfg1.maxInstances = 1) := by
-  refine ⟨by decide, by norm_num [cfg1], ⟨rfl, rfl⟩, by decide⟩
+example : cfg1.mt ≠ .centered ∧ 0 < cfg1.scale ∧ SingleOk cfg1 := by
+  refine ⟨by decide, by norm_num [cfg1], fun h => absurd h (by decide)⟩
 
 example : ∀ n : Nat, numRat.trunc (numRat.cast n * 1) = n := by
   intro n
@@ -206,21 +209,28 @@ example : ∀ n : Nat, numRat.trunc (numRat.cast n * 1) = n := by
 primitives in which bottom/right zero-padding commutes with the 8-bit round trip. -/
 theorem np_stream_pixels_equal {P : Type} (I : Interp R P)
     (hcomm : ∀ (m : Nat) (p : P), I.padStride m (I.quant8 p) = I.quant8 (I.padStride m p))
-    (N : Num R) (cfg : Cfg R) (fr : Frame R) (k : Nat) (hcfg : CfgMaxConsistent cfg)
+    (N : Num R) (cfg : Cfg R) (fr : Frame R) (k : Nat)
     (hc : cfg.mt = .centered → cfg.scale = 1 ∧ (∀ n : Nat, N.trunc (N.cast n * 1) = n) ∧
       k < (nonEmpty fr.insts).length) :
     I.eval (sampleOf N .np cfg fr k).img = I.eval (sampleOf N .stream cfg fr k).img := by
-  obtain ⟨hH, hW⟩ := hcfg
   cases hmt : cfg.mt with
   | single =>
-    simp [sampleOf, hmt, torchPlain, streamPlain, q8If, Interp.eval, hH, hW, hcomm]
+    simp [sampleOf, sampleOfH, dsMaxH, dsMaxW, hmt, torchPlain, streamPlain, q8If, Interp.eval, hcomm]
   | bottomup =>
-    simp [sampleOf, hmt, torchPlain, streamPlain, q8If, Interp.eval, hH, hW, hcomm]
+    simp [sampleOf, sampleOfH, dsMaxH, dsMaxW, hmt, torchPlain, streamPlain, q8If, Interp.eval, hcomm]
   | centroid =>
-    simp [sampleOf, hmt, torchCentroid, streamCentroid, q8If, Interp.eval, hH, hW, hcomm]
+    simp [sampleOf, sampleOfH, dsMaxH, dsMaxW, hmt, torchCentroid, streamCentroid, q8If, Interp.eval, hcomm]
   | centered =>
     obtain ⟨h1, h2, h3⟩ := hc hmt
-    rw [(centered_agree_scale1 N cfg fr k hmt ⟨hH, hW⟩ h1 h2 h3).2.2.2.2.2]
+    rw [(centered_agree_scale1 N cfg fr k hmt h1 h2 h3).2.2.2.2.2]
+
+/-! ## number of samples per frame -/
+
+/-- a frame with at least one non-empty instance yields the same number of samples everywhere -/
+theorem sample_count_agree (mt : MT) (fr : Frame R) (h : nonEmpty fr.insts ≠ []) :
+    sampleCount .np mt fr = sampleCount .mem mt fr ∧ sampleCount .stream mt fr = sampleCount .mem mt fr := by
+  have : (nonEmpty fr.insts).length ≠ 0 := fun h0 => h (List.eq_nil_of_length_eq_zero h0)
+  simp [sampleCount, this]
 
 /-! ## targets -/
 
@@ -254,13 +264,12 @@ theorem erase_eq_of_pixelsAgree {m n s : Sample R} (h : PixelsAgree m n s) :
 
 /-- at scale 1 the three frameworks generate the same targets, for every model type -/
 theorem targets_agree_scale1 (N : Num R) (hd : Heads R) (raw : Nat × Nat × Nat) (cfg : Cfg R) (fr : Frame R)
-    (k : Nat) (hs : cfg.scale = 1) (hcfg : CfgMaxConsistent cfg)
-    (hsingle : cfg.mt = .single → cfg.maxInstances = 1)
+    (k : Nat) (hs : cfg.scale = 1) (hsingle : SingleOk cfg)
     (hN : ∀ n : Nat, N.trunc (N.cast n * 1) = n)
     (hk : cfg.mt = .centered → k < (nonEmpty fr.insts).length) :
     targetsOf N raw cfg.mt hd (sampleOf N .np cfg fr k) = targetsOf N raw cfg.mt hd (sampleOf N .mem cfg fr k) ∧
     targetsOf N raw cfg.mt hd (sampleOf N .stream cfg fr k) = targetsOf N raw cfg.mt hd (sampleOf N .mem cfg fr k) := by
-  obtain ⟨px, cn, cs, nn, ns⟩ := frameworks_agree_scale1_partial N cfg fr k hs hcfg hsingle hN hk
+  obtain ⟨px, cn, cs, nn, ns⟩ := frameworks_agree_scale1 N cfg fr k hs hsingle hN hk
   obtain ⟨e1, e2⟩ := erase_eq_of_pixelsAgree px
   refine ⟨targets_from_same_points N raw cfg.mt hd _ _ e1 (fun _ => cn.1) (fun _ => cn.2.1) (fun _ => nn),
           targets_from_same_points N raw cfg.mt hd _ _ e2 (fun _ => cs.1) (fun _ => cs.2.1) ?_⟩
@@ -271,11 +280,10 @@ theorem targets_agree_scale1 (N : Num R) (hd : Heads R) (raw : Nat × Nat × Nat
 
 /-- single-instance, centroid, bottom-up: the same targets at any positive scale -/
 theorem targets_agree_any_scale (N : Num R) (hd : Heads R) (raw : Nat × Nat × Nat) (cfg : Cfg R) (fr : Frame R)
-    (k : Nat) (hmt : cfg.mt ≠ .centered) (hs : 0 < cfg.scale) (hcfg : CfgMaxConsistent cfg)
-    (hsingle : cfg.mt = .single → cfg.maxInstances = 1) :
+    (k : Nat) (hmt : cfg.mt ≠ .centered) (hs : 0 < cfg.scale) (hsingle : SingleOk cfg) :
     targetsOf N raw cfg.mt hd (sampleOf N .np cfg fr k) = targetsOf N raw cfg.mt hd (sampleOf N .mem cfg fr k) ∧
     targetsOf N raw cfg.mt hd (sampleOf N .stream cfg fr k) = targetsOf N raw cfg.mt hd (sampleOf N .mem cfg fr k) := by
-  obtain ⟨px, cn, sc, si, nn, ns⟩ := frameworks_agree_any_scale_partial N cfg fr k hmt hs hcfg hsingle
+  obtain ⟨px, cn, sc, si, nn, ns⟩ := frameworks_agree_any_scale N cfg fr k hmt hs hsingle
   obtain ⟨e1, e2⟩ := erase_eq_of_pixelsAgree px
   exact ⟨targets_from_same_points N raw cfg.mt hd _ _ e1 (fun _ => cn.1) (fun _ => cn.2.1) (fun _ => nn),
          targets_from_same_points N raw cfg.mt hd _ _ e2 si (fun _ => sc) (fun _ => ns)⟩
@@ -289,34 +297,54 @@ def cfg0 : Cfg Rat :=
 
 def fr0 : Frame Rat := { h := 96, w := 128, c := 1, insts := [[some (81/2, 121/4), some (60, 50)]] }
 
-/-- F-C18a: with `preprocessing.max_height = 120`, `max_width = 168` set in the config (and `max_hw`
-= the labels' own 96×128) the torch datasets and the streaming path size-match to different sizes:
-pixel terms and keypoints differ.  Hence `hcfg` cannot be dropped. -/
+/-- F-C18a, regression record: on the tree **before 3fdd300** (`sampleOfAsWas`), with
+`preprocessing.max_height = 120`, `max_width = 168` in the config and `max_hw` = the labels' own
+96×128, the torch datasets and the streaming path size-match to different sizes: pixel terms and
+keypoints differ. -/
 theorem cfg_max_override_counterexample :
     let cfg := { cfg0 with cfgMaxH := some 120, cfgMaxW := some 168 }
-    (sampleOf numRat .stream cfg fr0 0).img.erase ≠ (sampleOf numRat .mem cfg fr0 0).img ∧
-    (sampleOf numRat .stream cfg fr0 0).instances ≠ (sampleOf numRat .mem cfg fr0 0).instances := by
+    (sampleOfAsWas numRat .stream cfg fr0 0).img.erase ≠ (sampleOfAsWas numRat .mem cfg fr0 0).img ∧
+    (sampleOfAsWas numRat .stream cfg fr0 0).instances ≠ (sampleOfAsWas numRat .mem cfg fr0 0).instances := by
   decide +kernel
 
-/-- The property at full strength for the pixel part at scale 1 — *without* `CfgMaxConsistent`.
-False of the code as it is (F-C18a); `frameworks_agree_scale1_partial` is what holds. -/
-def frameworks_agree_scale1_full : Prop :=
-  ∀ (cfg : Cfg Rat) (fr : Frame Rat) (k : Nat), cfg.scale = 1 →
-    (cfg.mt = .single → cfg.maxInstances = 1) →
-    (cfg.mt = .centered → k < (nonEmpty fr.insts).length) →
-    (sampleOf numRat .stream cfg fr k).img.erase = (sampleOf numRat .mem cfg fr k).img
+/-- the same configuration on the tree as it is: they agree (an instance of `frameworks_agree_scale1`,
+here by evaluation) -/
+theorem cfg_max_override_repaired :
+    let cfg := { cfg0 with cfgMaxH := some 120, cfgMaxW := some 168 }
+    (sampleOf numRat .stream cfg fr0 0).img.erase = (sampleOf numRat .mem cfg fr0 0).img ∧
+    (sampleOf numRat .stream cfg fr0 0).instances = (sampleOf numRat .mem cfg fr0 0).instances := by
+  decide +kernel
 
-theorem frameworks_agree_scale1_full_false : ¬ frameworks_agree_scale1_full := fun h =>
-  cfg_max_override_counterexample.1
-    (h { cfg0 with cfgMaxH := some 120, cfgMaxW := some 168 } fr0 0 rfl (fun _ => rfl)
-      (fun hc => absurd hc (by decide)))
-
-/-- `single_instance_data_chunks` hard-codes `max_instances = 1`: on labels whose frames do not all
-have one instance the NaN padding differs (`hsingle` cannot be dropped). -/
+/-- F-C18b: `SingleInstanceDataset` pads `instances` to `get_max_instances(labels)` rows,
+`single_instance_data_chunks` hard-codes `max_instances = 1`.  On single-animal labels in which some
+frame carries a second (e.g. empty) instance the keypoint tensors — and with them the number of
+confidence-map channels — differ.  `hsingle` cannot be dropped on the tree as it is. -/
 theorem single_maxinst_counterexample :
     let cfg := { cfg0 with maxInstances := 2 }
-    (sampleOf numRat .stream cfg fr0 0).instances ≠ (sampleOf numRat .mem cfg fr0 0).instances := by
+    (sampleOf numRat .stream cfg fr0 0).instances ≠ (sampleOf numRat .mem cfg fr0 0).instances ∧
+    targetsOf numRat (1, 96, 128) .single ⟨3/2, 2, 4, 4, []⟩ (sampleOf numRat .stream cfg fr0 0)
+      ≠ targetsOf numRat (1, 96, 128) .single ⟨3/2, 2, 4, 4, []⟩ (sampleOf numRat .mem cfg fr0 0) := by
   decide +kernel
+
+/-- with the repair (`self.max_instances = 1` in `SingleInstanceDataset`) they agree -/
+theorem single_maxinst_repaired :
+    let cfg := { cfg0 with maxInstances := 2, singleOne := true }
+    (sampleOf numRat .stream cfg fr0 0).instances = (sampleOf numRat .mem cfg fr0 0).instances := by
+  decide +kernel
+
+/-- F-C18c: a labelled frame whose instances are all empty is skipped by the torch datasets and makes
+every chunk function raise (`np.stack` of nothing in `process_lf`). -/
+theorem sample_count_counterexample :
+    sampleCount .mem .bottomup { fr0 with insts := [[none, none]] } = some 0 ∧
+    sampleCount .stream .bottomup { fr0 with insts := [[none, none]] } = none := by
+  decide
+
+/-- Layout only (not part of the statement): the streaming centred-instance sample carries its
+keypoints as `(1, 1, n, 2)`, the torch datasets as `(1, n, 2)`; the values are the same
+(`frameworks_agree_scale1`). -/
+theorem centered_rank_differs (N : Num R) (cfg : Cfg R) (fr : Frame R) (k : Nat) (h : cfg.mt = .centered) :
+    (sampleOf N .mem cfg fr k).rank = 3 ∧ (sampleOf N .stream cfg fr k).rank = 4 := by
+  simp [sampleOf, sampleOfH, h, torchCentered, streamCentered, recrop]
 
 /-- `CenteredInstanceDataset` counts empty instances in `num_instances`, `process_lf` does not. -/
 theorem centered_numInstances_counterexample :
